@@ -34,8 +34,10 @@ func tmpBase(t interface{ Fatalf(string, ...any) }) (root, base string) {
 	return root, base
 }
 
+type fataler interface{ Fatalf(string, ...any) }
+
 type c01State struct {
-	t       *rapid.T
+	t       fataler
 	cfg     *vlib.Config
 	base    string
 	viaYAML bool
@@ -57,7 +59,7 @@ func (s *c01State) reopen() {
 }
 
 func (s *c01State) user(label string) string {
-	return rapid.SampledFrom(vlib.ValidPool[:5]).Draw(s.t, label)
+	return rapid.SampledFrom(vlib.ValidPool[:5]).Draw(s.t.(*rapid.T), label)
 }
 
 func (s *c01State) checkAuth(name, pw, kind string) {
@@ -287,4 +289,72 @@ func TestC01History(t *testing.T) {
 		vlib.ClassN("history:steps", len(s.hist))
 		vlib.Sample(map[string]any{"config": s.cfg, "history": s.hist})
 	})
+}
+
+
+// TestC01SmallScope: exhaustive small scope — every history of up to 4 operations from a 7-operation alphabet on one user,
+// under an scrypt and an argon2id default, with a probe of every password ever used after every step.
+func TestC01SmallScope(t *testing.T) {
+	type op struct {
+		kind  string
+		pw    string
+		admin bool
+	}
+	alphabet := []op{{"add", "p1", false}, {"add", "p2", true}, {"update", "p3", false}, {"update", "p1", false}, {"remove", "", false}, {"setadmin", "", true}, {"setadmin", "", false}}
+	pws := []string{"p1", "p2", "p3", "p1\x00", "p", ""}
+	n := 0
+	for _, alg := range []string{vlib.AlgScrypt, vlib.AlgArgon} {
+		cfg := &vlib.Config{Default: 1, Sets: []*vlib.ParamSet{{ID: 1, Alg: alg, Cost: 1, HmacKey: []byte("0123456789abcdef0123456789abcdef"), Time: 1, Memory: 8, Threads: 1, Length: 16}}}
+		var rec func(hist []int)
+		rec = func(hist []int) {
+			if len(hist) > 0 {
+				root, base := tmpBase(t)
+				s := &c01State{t: t, cfg: cfg, base: base, stale: map[string][]string{}, kinds: map[string]bool{}}
+				s.m = vlib.NewModel(cfg)
+				s.reopen()
+				for _, i := range hist {
+					o := alphabet[i]
+					t0 := time.Now().Unix()
+					var err error
+					want := false
+					switch o.kind {
+					case "add":
+						err = s.d.AddUser("bob", o.pw, o.admin)
+						want = s.m.Add("bob", o.pw, o.admin, t0, time.Now().Unix())
+					case "update":
+						err = s.d.UpdateUser("bob", o.pw)
+						want = s.m.Update("bob", o.pw, t0, time.Now().Unix())
+					case "setadmin":
+						err = s.d.SetAdmin("bob", o.admin)
+						want = s.m.SetAdmin("bob", o.admin)
+					case "remove":
+						s.d.RemoveUser("bob")
+						s.m.Remove("bob")
+						want = true
+					}
+					s.hist = append(s.hist, fmt.Sprintf("%s:%v", o.kind, want))
+					if (err == nil) != want {
+						t.Fatalf("VIOLATION C01: %s err=%v, model expects success=%v; history %v (%s)", o.kind, err, want, s.hist, alg)
+					}
+					for _, p := range pws {
+						s.checkAuth("bob", p, "small-scope")
+					}
+					s.invariant()
+				}
+				os.RemoveAll(root)
+				n++
+				vlib.Eval()
+				vlib.NT("c01small", alg, fmt.Sprint(hist))
+			}
+			if len(hist) < 4 {
+				for i := range alphabet {
+					rec(append(append([]int{}, hist...), i))
+				}
+			}
+		}
+		rec(nil)
+	}
+	vlib.SetExtra("small_scope_histories_enumerated", int64(n))
+	vlib.Class("small-scope-exhaustive")
+	vlib.Sample(map[string]any{"kind": "small scope", "alphabet_size": len(alphabet), "max_length": 4, "histories": n})
 }
